@@ -35,6 +35,11 @@ type c11Case struct {
 	// PreNNP (unlocked callers with NNP requested): the calling goroutine sets the bit itself right before the load, on
 	// whatever thread it runs; the load may be resumed on another thread that does not have it
 	PreNNP bool `json:"pre_nnp,omitempty"`
+	// Uname26: the process reports a 2.6 kernel release (UNAME26 personality): what uname says is no input of the load
+	Uname26 bool `json:"uname26,omitempty"`
+	// AllowOnly: the policy loaded allows everything (default allow, one group with action allow): a valid filter like
+	// any other, the request for the bit is honoured all the same
+	AllowOnly bool `json:"allow_only,omitempty"`
 }
 
 func drawC11(t *rapid.T) c11Case {
@@ -85,6 +90,8 @@ func drawC11(t *rapid.T) c11Case {
 		// keep every P busy, otherwise the descheduled goroutine simply resumes where it was
 		c.Spinners = 2 * c.GOMAXPROCS
 	}
+	c.Uname26 = rapid.IntRange(0, 5).Draw(t, "uname26") == 0
+	c.AllowOnly = c.Own != "seccomp-einval-log" && rapid.IntRange(0, 5).Draw(t, "allowOnly") == 0
 	return c
 }
 
@@ -99,7 +106,7 @@ func checkC11(raw json.RawMessage) (ev.Result, error) {
 		return ev.Result{}, ev.Inconclusivef("kernel checks are set up for an x86_64 host")
 	}
 	thread := -1
-	job := &kjob.Job{GOMAXPROCS: c.GOMAXPROCS}
+	job := &kjob.Job{GOMAXPROCS: c.GOMAXPROCS, Uname26: c.Uname26}
 	// all command threads exist before any load: thread 0 is the (optionally) locked caller, 1.. carry the prior loads
 	job.Steps = append(job.Steps, kjob.Step{Op: "mkthreads", N: 1 + c.Prior})
 	if c.Locked {
@@ -117,6 +124,9 @@ func checkC11(raw json.RawMessage) (ev.Result, error) {
 		return ev.Result{}, ev.Inconclusivef("own-thread history needs a locked caller")
 	}
 	loadPolicy := c10Policy()
+	if c.AllowOnly {
+		loadPolicy = spec.Policy{Arch: "x86_64", Default: actAllow, Groups: []spec.Group{{Action: actAllow, Names: []string{"getppid", "getuid"}}}}
+	}
 	switch c.Own {
 	case "prior-no-nnp", "prior-nnp":
 		pp := c10Policy()
@@ -208,6 +218,14 @@ func checkC11(raw json.RawMessage) (ev.Result, error) {
 	}
 	if c.PreNNP {
 		res.Classes = append(res.Classes, "caller-set-the-bit-itself-right-before")
+	}
+	if c.Uname26 {
+		desc += ", UNAME26 personality"
+		res.Classes = append(res.Classes, "uname-reports-2.6")
+	}
+	if c.AllowOnly {
+		desc += ", policy that allows everything"
+		res.Classes = append(res.Classes, "policy-that-allows-everything")
 	}
 	if c.Own != "" {
 		desc += ", calling thread: " + c.Own
